@@ -59,6 +59,7 @@ impl RunCfg {
                 "guardl" => galloc::GUARD_LEFT,
                 "guardr" => galloc::GUARD_RIGHT,
                 "fail" => galloc::FAIL,
+                "failtape" => galloc::FAIL_TAPE,
                 _ => galloc::SYS,
             },
             fail_k: v["failK"].as_u64().unwrap_or(u64::MAX) as usize,
